@@ -251,7 +251,9 @@ def put_unconditional(ctx, pfx):
                         bad = 'an iteration of batch_put can complete without storing its record'
                 # the loop itself must be on every path: an early return before it (e.g. "batch larger than the memory
                 # limit") leaves older copies of the written records in the cache (seeded change C14-r1-b)
-                if bad is None and hdr and (b.exits((0, 0), avoid_blocks=hdr) - {'Diverge'}):
+                # (returning early for an EMPTY batch is the one harmless shortcut)
+                empty_e = side_edges(b, lambda fc: fc[0] == 'pred' and fc[1].endswith('is_empty') and fc[3] is True and access_path(fc[2][0]) == 'records')
+                if bad is None and hdr and (b.exits((0, 0), avoid_blocks=hdr, avoid_edges=empty_e) - {'Diverge'}):
                     bad = 'batch_put can return without iterating over the records at all'
                 ok = bad is None and bool(hdr)
                 detail = 'every iteration of batch_put stores its record, and the loop is on every path' if ok else (bad or 'no loop over the records found')
@@ -642,7 +644,8 @@ def write_apis_unconditional(ctx, pfx):
         if name == 'batch_set' and eff:
             # per record: the loop header is on every path and no iteration completes without the insert
             hdr = [pos[0] for pos, t in b.call_sites() if (short(t.get('res') or t.get('fn')) or '').endswith('::next')]
-            ks = b.exits((0, 0), avoid_blocks=hdr) - {'Diverge'} if hdr else {'noloop'}
+            empty_e = side_edges(b, lambda fc: fc[0] == 'pred' and fc[1].endswith('is_empty') and fc[3] is True and access_path(fc[2][0]) == 'records')
+            ks = b.exits((0, 0), avoid_blocks=hdr, avoid_edges=empty_e) - {'Diverge'} if hdr else {'noloop'}
             ok = bool(hdr) and not ks and all(h not in b.reach_avoiding(b.succ(h), avoid_blocks=eff) or True for h in hdr)
             # an iteration that skips the insert: from the Some-edge back to the header avoiding the insert
             skip = False
